@@ -68,13 +68,19 @@ AttrSM(items, name, alias) == IF Has(items, name) THEN Get(items, name) ELSE IF 
 
 -----------------------------------------------------------------------------
 (* ssc_to_sm *)
-(* the copy plan of a sequence of source items against a kind table: list of [k, v, kind, d] *)
-Plan(items, kindOf(_), beh) ==
-  [i \in DOMAIN items |-> [k |-> items[i].k, v |-> items[i].v, d |-> Decide(kindOf(items[i].k), items[i].k, items[i].v, beh)]]
+(* Item keys may be of any type (strings in MC_Convert / Trace_Convert, code-point sequences in   *)
+(* System.tla): N(k) gives the NAME of key k as the tables above spell it ("" for any other key). *)
+IdN(k) == k
+(* the copy plan of a sequence of source items against a kind table: list of [k, v, d] *)
+PlanG(items, kindOf(_), beh, N(_)) ==
+  [i \in DOMAIN items |-> [k |-> items[i].k, v |-> items[i].v,
+                           d |-> Decide(kindOf(N(items[i].k)), N(items[i].k), items[i].v, beh)]]
+Plan(items, kindOf(_), beh) == PlanG(items, kindOf, beh, IdN)
 FirstRaise(plan) == LET R == {i \in DOMAIN plan : plan[i].d = "raise"} IN IF R = {} THEN 0 ELSE CHOOSE i \in R : \A j \in R : i <= j
 (* a chart-level copy of a key the SM chart cannot hold (known finding: bare KeyError) *)
-BadChartCopy(plan) == LET B == {i \in DOMAIN plan : plan[i].d = "copy" /\ plan[i].k \notin SMFieldSet} IN
-                      IF B = {} THEN 0 ELSE CHOOSE i \in B : \A j \in B : i <= j
+BadChartCopyG(plan, N(_)) == LET B == {i \in DOMAIN plan : plan[i].d = "copy" /\ N(plan[i].k) \notin SMFieldSet} IN
+                             IF B = {} THEN 0 ELSE CHOOSE i \in B : \A j \in B : i <= j
+BadChartCopy(plan) == BadChartCopyG(plan, IdN)
 
 RECURSIVE ApplyPlan(_, _, _)
 ApplyPlan(out, plan, i) == IF i > Len(plan) THEN out
@@ -82,22 +88,25 @@ ApplyPlan(out, plan, i) == IF i > Len(plan) THEN out
 
 (* result: [st |-> "ok", items, charts] | [st |-> "InvalidPropertyException", key] | [st |-> "NotImplementedError"] | [st |-> "KeyError"] *)
 Fail(st, key) == [st |-> st, key |-> key, items |-> <<>>, charts |-> <<>>]
-RECURSIVE ChartsFrom(_, _, _, _, _)
-ChartsFrom(charts, j, ctmpl, beh, acc) ==
-  IF j > Len(charts) THEN [st |-> "ok", key |-> "", items |-> <<>>, charts |-> acc]
-  ELSE LET plan == Plan(charts[j], SMChartKind, beh)
-           r == FirstRaise(plan)  b == BadChartCopy(plan) IN
-       IF b # 0 /\ (r = 0 \/ b < r) THEN Fail("KeyError", plan[b].k)
-       ELSE IF r # 0 THEN Fail("InvalidPropertyException", plan[r].k)
-       ELSE ChartsFrom(charts, j + 1, ctmpl, beh, Append(acc, ApplyPlan(ctmpl, plan, 1)))
+(* one chart: the converted chart (as an ordered map in `items`) or the failure *)
+ChartOutcome(chart, ctmpl, beh, N(_)) ==
+  LET plan == PlanG(chart, SMChartKind, beh, N)
+      r == FirstRaise(plan)  b == BadChartCopyG(plan, N) IN
+  IF b # 0 /\ (r = 0 \/ b < r) THEN Fail("KeyError", plan[b].k)
+  ELSE IF r # 0 THEN Fail("InvalidPropertyException", plan[r].k)
+  ELSE [st |-> "ok", key |-> "", items |-> ApplyPlan(ctmpl, plan, 1), charts |-> <<>>]
 
-SscToSm(src, tmpl, ctmpl, beh) ==
-  IF Has(src.items, "WARPS") /\ NonBlank(Get(src.items, "WARPS")) THEN Fail("NotImplementedError", "WARPS")
-  ELSE LET plan == Plan(src.items, SMSimfileKind, beh)  r == FirstRaise(plan) IN
+(* charts are converted in order; the first failing chart decides *)
+SscToSmG(src, tmpl, ctmpl, beh, N(_)) ==
+  IF (\E i \in DOMAIN src.items : N(src.items[i].k) = "WARPS" /\ NonBlank(src.items[i].v)) THEN Fail("NotImplementedError", "WARPS")
+  ELSE LET plan == PlanG(src.items, SMSimfileKind, beh, N)  r == FirstRaise(plan) IN
        IF r # 0 THEN Fail("InvalidPropertyException", plan[r].k)
-       ELSE LET cs == ChartsFrom(src.charts, 1, ctmpl, beh, tmpl.charts) IN
-            IF cs.st # "ok" THEN cs
-            ELSE [st |-> "ok", key |-> "", items |-> ApplyPlan(tmpl.items, plan, 1), charts |-> cs.charts]
+       ELSE LET outs == [j \in DOMAIN src.charts |-> ChartOutcome(src.charts[j], ctmpl, beh, N)]
+                bad == {j \in DOMAIN outs : outs[j].st # "ok"} IN
+            IF bad # {} THEN outs[CHOOSE j \in bad : \A m \in bad : j <= m]
+            ELSE [st |-> "ok", key |-> "", items |-> ApplyPlan(tmpl.items, plan, 1),
+                  charts |-> tmpl.charts \o [j \in DOMAIN outs |-> outs[j].items]]
+SscToSm(src, tmpl, ctmpl, beh) == SscToSmG(src, tmpl, ctmpl, beh, IdN)
 
 (* the same outcome stated declaratively (checked against the fold by TLC):                      *)
 (* every source property is in the result iff it is representable or its behaviour says "copy"; *)
